@@ -7,6 +7,7 @@ import (
 	"io"
 
 	"github.com/ohler55/slip"
+	"github.com/ohler55/slip/pkg/cl"
 )
 
 func init() {
@@ -77,6 +78,11 @@ func (f *WithZipReader) Call(s *slip.Scope, args slip.List, depth int) (result s
 	s2.Let(sym, slip.NewInputStream(z))
 	for i := range forms {
 		result = slip.EvalArg(s2, forms, i, d2)
+		switch result.(type) {
+		case *slip.ReturnResult, *cl.GoTo:
+			_ = z.Close()
+			return result
+		}
 	}
 	_ = z.Close()
 
